@@ -398,10 +398,10 @@ func (r *Renderer) render1(v ssa.Value, depth int) string {
 		return x.Name()
 	case *ssa.Alloc:
 		// a spilled parameter is named by the parameter
+		// a local assigned exactly once as a whole is named by that value
+		// (spilled parameters; `v, err := f()` whose address is taken later)
 		if sv := uniqueStoreInstr(x); sv != nil {
-			if _, isParam := sv.Val.(*ssa.Parameter); isParam {
-				return r.render(sv.Val, depth+1)
-			}
+			return r.render(sv.Val, depth+1)
 		}
 		return r.allocName(x)
 	case *ssa.FieldAddr:
